@@ -311,6 +311,17 @@ def run(src, tier, seed):
                     any(n.get('k') == 'call' and set(fx.targets(n)) & setters for n in fwalk(f))}
     if not setters:
         raise AnalysisBroken('no function assigns decision[v]')
+    # the announcing function itself: for a variable that already exists (v < nVars()) it must switch the decision flag back on
+    av = fx.func('opensmt::CoreSMTSolver::addVar_')
+    base_setters = {f['id'] for f in fx.F.values() if f.get('body') and any(n.get('k') in ('bin',) and n.get('op') == '=' and (path_of(n['l']) or '').startswith('this.decision[') for n in fwalk(f))}
+    existing = [n for n in walk(av['body']) if n.get('k') == 'if' and not n.get('as') and any(is_call(x, 'nVars') for x in walk(n['cond'])) and
+                isinstance(see_through(n['cond']), dict) and see_through(n['cond']).get('op') == '<']
+    reactivates = any(x.get('k') == 'call' and set(fx.targets(x)) & base_setters for n in existing for x in walk(n['then']))
+    if not reactivates:
+        res.bad(r, 'variable-not-reactivated:CoreSMTSolver::addVar_', fx.loc(av), 'CoreSMTSolver::addVar_ does nothing for a variable that already exists: every check-sat switches the decision flag of '
+                'variables without clauses off (declareVarsToTheories), and a variable that reappears in a later clause is then never branched on - a later check answers sat with the clause '
+                'unsatisfied, unlike a fresh solver')
+        setters |= {av['id']}          # keep judging the callers: they do reach addVar_
 
     class Reach(Client):
         def __init__(self):
